@@ -35,6 +35,7 @@ import (
 
 type vpCase struct {
 	ID   int                    `json:"id"`
+	Must bool                   `json:"must"` // (redirect family) always run the end-to-end battery for this case
 	Fam  string                 `json:"fam"`
 	Cfg  json.RawMessage        `json:"cfg"`
 	In   map[string]interface{} `json:"in"`
